@@ -802,6 +802,11 @@ class SymInt:
             acc = acc + If(a >= (1 << i), 1, 0)
         return acc
 
+    @staticmethod
+    def from_bytes(data, byteorder="big", *, signed=False):
+        from .sbytes import from_bytes
+        return from_bytes(data, byteorder, signed=signed)
+
     def to_bytes(self, length=1, byteorder="big", *, signed=False):
         from .sbytes import SymBytes
         if isinstance(length, SymInt):
